@@ -1,7 +1,7 @@
 (* C10 -- property theorems only. *)
 From Coq Require Import ZArith List Bool.
 From Coq Require Import Sorted.
-From WNTRV Require Import Lib.Sched C10.Proofs C10.Invariant C10.Times.
+From WNTRV Require Import Lib.Sched C10.Proofs C10.Invariant C10.Times C04.Window.
 Import ListNotations.
 Local Open Scope Z_scope.
 
@@ -36,10 +36,25 @@ Proof. exact run_times_increasing. Qed.
 Theorem C10_continued_times_after_pause : forall g D f s tr s', simple_cfg g -> after_state g s -> steps f g D s = Some (tr, s') ->
   StronglySorted Z.lt (map fst tr) /\ (forall e, In e tr -> match s with (_, prev, _, _, _) => prev < fst e end).
 Proof. intros g D f s tr s' Hg. exact (steps_times_increasing g D Hg f s tr s'). Qed.
+(* a functional statement across a pause: an on/off window (e.g. a leak) paused at ANY duration D1 and continued with a NEW simulator object
+   to any D': over both parts the target is on exactly at the solved steps with ts <= time < te, the continued part lies after the pause,
+   and steps are solved at exactly ts and te whenever the continued run gets that far (wherever the pause fell relative to them) *)
+Theorem C10_window_survives_pause : forall ts te hs rs sc D l st0 p D1 D' f1 tr1 s1 f2 tr2 s2,
+  0 < rs -> 0 < hs -> 0 < ts < te -> (l < length st0)%nat -> nth l st0 true = false ->
+  steps f1 (gw ts te hs rs sc D l st0 p) D1 (init_state (gw ts te hs rs sc D l st0 p)) = Some (tr1, s1) ->
+  steps f2 (gw ts te hs rs sc D l st0 p) D' (restart_state (gw ts te hs rs sc D l st0 p) s1) = Some (tr2, s2) ->
+  (forall e, In e (tr1 ++ tr2) -> nth l (snd e) false = active ts te (fst e)) /\
+  (forall e, In e tr2 -> s_prev s1 < fst e) /\
+  (forall x, x = ts \/ x = te -> x <= s_prev s2 -> In x (map fst (tr1 ++ tr2))).
+Proof.
+  intros ts te hs rs sc D l st0 p D1 D' f1 tr1 s1 f2 tr2 s2 H1 H2 H3 H4 H5 H6 H7.
+  exact (window_survives_pause ts te hs rs sc D l st0 p H1 H2 H3 H4 D1 D' f1 tr1 s1 f2 tr2 s2 H5 H6 H7).
+Qed.
 Theorem C10_fuel_irrelevant : forall g D f k s r, steps f g D s = Some r -> steps (f + k) g D s = Some r.
 Proof. exact steps_fuel_mono. Qed.
 Print Assumptions C10_pause_continue.
 Print Assumptions C10_restart_equiv_partial.
 Print Assumptions C10_rule_index_invariant.
 Print Assumptions C10_times_strictly_increasing.
+Print Assumptions C10_window_survives_pause.
 Print Assumptions C10_restart_equiv_sim_time_controls.
